@@ -24,6 +24,7 @@ import ast
 from ..cfg import ALL, NORMAL
 from ..dataflow import defs_of, fragments, origins
 from ..model import ancestors, dotted, unparse
+from ..roles import is_call, kwarg_name, tuple_vars_from, vars_from
 from ..selftest import V
 from ..shell import check_quoting
 
@@ -57,6 +58,14 @@ def _in_test_position(n) -> bool:
     return isinstance(par, (ast.If, ast.While, ast.IfExp)) and par.test is cur
 
 
+def _env_pair(f):
+    """(key, value) loop variable names of the iteration over environment.items()"""
+    for names in tuple_vars_from(f, lambda e: is_call(e, "items") and "environment" in unparse(e.func.value)):
+        if len(names) == 2 and all(names):
+            return names[0], names[1]
+    return "key", "value"
+
+
 def _ret_exprs(f):
     return [n.value for n in f.body_nodes() if isinstance(n, ast.Return) and n.value is not None]
 
@@ -67,10 +76,11 @@ def r1(ctx):
     f = p.func(f"{UT}.create_command")
     rets = _ret_exprs(f)
     ctx.require(len(rets) == 1, "C25.R1: create_command has not exactly one return")
-    frs = check_quoting(ctx, "R1", f, rets[0], rets[0], trusted={"command", "key", "class_name"}, what="create_command")
+    key, value = _env_pair(f)
+    frs = check_quoting(ctx, "R1", f, rets[0], rets[0], trusted={"command", key, "class_name"}, what="create_command")
     dyn = {x.text for x in frs if x.kind == "dyn"}
     quoted = " ".join(x.text for x in frs if x.kind == "quoted")
-    ctx.ob("R1", "create_command renders the environment values", "value" in quoted or "value" in dyn, func=f, node=rets[0],
+    ctx.ob("R1", "create_command renders the environment values", value in quoted or value in dyn, func=f, node=rets[0],
            instance="create_command:env-present", message="create_command no longer renders the environment")
     ctx.ob("R1", "create_command renders the working directory", "workdir" in quoted or "workdir" in dyn, func=f, node=rets[0],
            instance="create_command:workdir-present", message="create_command no longer renders the working directory")
@@ -81,13 +91,14 @@ def r1(ctx):
     f = p.func(f"{SH}._build_shell_command")
     rets = _ret_exprs(f)
     ctx.require(len(rets) == 1, "C25.R1: _build_shell_command has not exactly one return")
-    frs = check_quoting(ctx, "R1", f, rets[0], rets[0], trusted={"command", "end_marker", "key"}, what="_build_shell_command")
+    key, value = _env_pair(f)
+    frs = check_quoting(ctx, "R1", f, rets[0], rets[0], trusted={"command", "end_marker", key}, what="_build_shell_command")
     # inner subshell parts are quoted values too
     inner_ok = True
     for n in f.body_nodes():
         if isinstance(n, ast.Call) and isinstance(n.func, ast.Attribute) and n.func.attr == "append" and isinstance(n.func.value, ast.Name):
             for fr in fragments(p, f, n.args[0]):
-                if fr.kind == "dyn" and fr.text not in ("command", "key"):
+                if fr.kind == "dyn" and fr.text not in ("command", key):
                     inner_ok = False
                     ctx.ob("R1", f"subshell part {fr.text} quoted", False, func=f, node=n, instance=f"_build_shell_command:inner|{fr.text}",
                            message=f"`{fr.text}` is spliced into the subshell command without shlex.quote")
@@ -112,7 +123,7 @@ def r1(ctx):
     ctx.require(isinstance(call, ast.Call), "C25.R1: get_command does not return a render() call")
     for k in call.keywords:
         if k.arg == "streamflow_environment":
-            check_quoting(ctx, "R1", f, k.value, k.value, trusted={"key"}, what="get_command:environment")
+            check_quoting(ctx, "R1", f, k.value, k.value, trusted={_env_pair(f)[0]}, what="get_command:environment")
     # who-may-render: every concrete Connector.run passes environment only to known renderers / delegates
     ok_sinks = {"create_command", "run_in_shell", "run", "_get_command", "get_command", "_run_batch_command", "execute", "_get_run_command",
                 "_get_ssh_client_process"}  # the last one passes it as process environment (asyncssh env=), not through a shell
@@ -171,7 +182,7 @@ def r2(ctx):
     # closed shell refuses commands, before the write
     tests = [n for n in g.nodes.values() if n.kind == "test" and unparse(n.ast) in ("self._closed", "self._closed is True")]
     ok = bool(tests) and g.dominates([t.id for t in tests], w.id) and all(
-        any(g.nodes[b].kind == "raise_stmt" for b, k in g.succ[t.id] if k == "t") for t in tests)
+        any(g.nodes[b].kind == "raise_stmt" for b in g.real_succ(t.id, "t")) for t in tests)
     ctx.ob("R2", "a closed shell refuses commands", ok, func=f, node=f.node, instance="execute:closed-test")
     # serialised by the lock
     locked = any(isinstance(a, ast.AsyncWith) and any(unparse(i.context_expr) == "self._lock" for i in a.items) for c in w.calls() for a in ancestors(c))
@@ -181,7 +192,8 @@ def r2(ctx):
     ctx.ob("R2", "the output is read inside the same critical section", okr, func=f, node=f.node, instance="execute:read-locked")
     # the marker passed to the readers is the one written
     mk = [unparse(c.args[0]) for n in reads for c in n.calls() if isinstance(c.func, ast.Attribute) and c.func.attr.startswith("_read_w") and c.args]
-    ctx.ob("R2", "readers wait for the marker of this command", len(mk) == 2 and set(mk) == {"end_marker"}, func=f, node=f.node, instance="execute:marker-arg")
+    mname = kwarg_name(f, "_build_shell_command", "end_marker")
+    ctx.ob("R2", "readers wait for the marker of this command", len(mk) == 2 and mname is not None and set(mk) == {mname}, func=f, node=f.node, instance="execute:marker-arg")
     # BaseShell.close idempotent and marks closed
     c = p.func(f"{SH}.BaseShell.close")
     src = unparse(c.node)
@@ -238,20 +250,48 @@ def r3(ctx):
         ctx.ob("R3", "run_in_shell forwards command, environment, workdir, capture_output, timeout unchanged", ok, func=f, node=calls[0], instance="run_in_shell:forward")
 
 
+def _reader_roles(f):
+    dec = vars_from(f, lambda e: is_call(e, "decode"))
+    out = None
+    for n in f.body_nodes():
+        if isinstance(n, ast.AugAssign) and isinstance(n.op, ast.Add) and isinstance(n.target, ast.Name):
+            v = n.value
+            if is_call(v, "decode") or (isinstance(v, ast.Name) and v.id in dec):
+                out = n.target.id
+    chunk = vars_from(f, lambda e: "_reader.read" in unparse(e))
+    return out, (chunk[0] if chunk else None)
+
+
 def _reader_facts(ctx, f):
-    finds = [c for c in f.calls() if isinstance(c.func, ast.Attribute) and c.func.attr == "find" and unparse(c.func.value) == "output"]
+    OUT, CH = _reader_roles(f)
+    ctx.ob("R4", f"{f.name}: decoded chunks are accumulated", OUT is not None, func=f, node=f.node, instance=f"{f.name}:accumulate")
+    if OUT is None:
+        return {}
+    finds = [c for c in f.calls() if isinstance(c.func, ast.Attribute) and c.func.attr == "find" and unparse(c.func.value) == OUT]
     marker = [c for c in finds if c.args and isinstance(c.args[0], ast.JoinedStr) and "end_marker" in unparse(c.args[0])]
     nl = [c for c in finds if c.args and isinstance(c.args[0], ast.Constant) and c.args[0].value == "\n"]
-    ok_marker = len(marker) == 1 and len(marker[0].args) == 1 and unparse(marker[0].args[0]) == "f'{end_marker}:'"
+    ok_marker = len(marker) == 1 and len(marker[0].args) == 1 and not marker[0].keywords and unparse(marker[0].args[0]) == "f'{end_marker}:'"
     ctx.ob("R4", f"{f.name}: the marker `<marker>:` is searched in the whole accumulated output", ok_marker, func=f, node=marker[0] if marker else f.node,
            instance=f"{f.name}:marker-search", message="the end-marker search is restricted (start offset) or altered: a marker split across two reads is never found")
-    ok_nl = len(nl) == 1 and len(nl[0].args) == 2 and unparse(nl[0].args[1]) == "marker_pos"
+    MP = None
+    if marker:
+        par = getattr(marker[0], "_parent", None)
+        if isinstance(par, ast.NamedExpr):
+            MP = par.target.id
+        elif isinstance(par, ast.Assign) and isinstance(par.targets[0], ast.Name):
+            MP = par.targets[0].id
+    ok_nl = len(nl) == 1 and len(nl[0].args) == 2 and MP is not None and unparse(nl[0].args[1]) == MP
     ctx.ob("R4", f"{f.name}: a newline is required after the marker", ok_nl, func=f, node=nl[0] if nl else f.node, instance=f"{f.name}:newline")
-    # accumulation
-    acc = [n for n in f.body_nodes() if isinstance(n, ast.AugAssign) and unparse(n.target) == "output" and isinstance(n.op, ast.Add)]
-    ctx.ob("R4", f"{f.name}: decoded chunks are accumulated", len(acc) == 1, func=f, node=f.node, instance=f"{f.name}:accumulate")
+    NP = None
+    if nl:
+        par = getattr(nl[0], "_parent", None)
+        if isinstance(par, ast.NamedExpr):
+            NP = par.target.id
+        elif isinstance(par, ast.Assign) and isinstance(par.targets[0], ast.Name):
+            NP = par.targets[0].id
     # EOF raises
-    eof = [n for n in f.body_nodes() if isinstance(n, ast.If) and unparse(n.test) == "not chunk" and any(isinstance(x, ast.Raise) for x in n.body)]
+    eof = [n for n in f.body_nodes() if isinstance(n, ast.If) and CH is not None and unparse(n.test) in (f"not {CH}", f"len({CH}) == 0", f"{CH} == b''")
+           and any(isinstance(x, ast.Raise) for b in n.body for x in ast.walk(b))]
     ctx.ob("R4", f"{f.name}: EOF of the shell raises", len(eof) == 1, func=f, node=f.node, instance=f"{f.name}:eof")
     # decoder reset before return
     g = f.cfg
@@ -259,10 +299,10 @@ def _reader_facts(ctx, f):
     rets = [n for n in g.nodes.values() if n.kind == "return"]
     ok = bool(rets) and bool(resets) and all(g.dominates(resets, r.id) for r in rets)
     ctx.ob("R4", f"{f.name}: the decoder is reset before returning", ok, func=f, node=f.node, instance=f"{f.name}:decoder-reset")
-    # loop: while True with read of buffer_size
     rd = [c for c in f.calls() if isinstance(c.func, ast.Attribute) and c.func.attr == "read" and "_reader" in unparse(c.func.value)]
     ctx.ob("R4", f"{f.name}: reads from the shell's reader in a loop", len(rd) == 1 and any(isinstance(a, ast.While) for a in ancestors(rd[0])), func=f, node=f.node,
            instance=f"{f.name}:read-loop")
+    return {"OUT": OUT, "MP": MP, "NP": NP}
 
 
 def r4(ctx):
@@ -275,34 +315,45 @@ def r4(ctx):
         for v in ret.values:
             parts.append(v.value if isinstance(v, ast.Constant) else "{" + unparse(v.value) + "}")
         s = "".join(parts)
-        ok = s == '{cmd}\necho "{end_marker}:$?"\n'
+        first = ret.values[0]
+        CMD = first.value.id if isinstance(first, ast.FormattedValue) and isinstance(first.value, ast.Name) else "cmd"
+        ok = s == '{' + CMD + '}\necho "{end_marker}:$?"\n'
         shape = s
     else:
         shape = unparse(ret)
     ctx.ob("R4", "the marker echo follows the command on its own line and carries `$?`", ok, func=f, node=ret, instance="framing:writer",
            message=f"command framing changed: {shape!r}")
     # stderr merged into stdout in both branches
-    cmds = [d.value for d in defs_of(f, "cmd") if d.kind == "assign"]
+    CMD = ret.values[0].value.id if isinstance(ret, ast.JoinedStr) and isinstance(ret.values[0], ast.FormattedValue) and isinstance(ret.values[0].value, ast.Name) else "cmd"
+    cmds = [d.value for d in defs_of(f, CMD) if d.kind == "assign"]
     ok2 = len(cmds) == 2 and all(isinstance(c, ast.JoinedStr) and unparse(c).rstrip("'\"").endswith(" 2>&1") for c in cmds)
     ctx.ob("R4", "stderr is merged into the captured output on both branches", ok2, func=f, node=f.node, instance="framing:stderr")
     # marker fresh per command
     e = p.func(f"{SH}.BaseShell.execute")
-    mk = [d.value for d in defs_of(e, "end_marker") if d.kind == "assign"]
+    mk = [d.value for d in defs_of(e, kwarg_name(e, "_build_shell_command", "end_marker") or "end_marker") if d.kind == "assign"]
     okm = len(mk) == 1 and "random_name()" in unparse(mk[0])
     ctx.ob("R4", "the end marker is fresh for every command", okm, func=e, node=e.node, instance="framing:fresh-marker")
+    roles = {}
     for name in ("_read_with_output", "_read_without_output"):
-        _reader_facts(ctx, p.func(f"{SH}.BaseShell.{name}"))
+        roles[name] = _reader_facts(ctx, p.func(f"{SH}.BaseShell.{name}"))
     f = p.func(f"{SH}.BaseShell._read_with_output")
-    rc = [d.value for d in defs_of(f, "returncode_str") if d.kind == "assign"]
-    okrc = len(rc) == 1 and unparse(rc[0]) == "output[marker_pos + len(end_marker) + 1:newline_pos]"
+    r = roles["_read_with_output"]
+    OUT, MP, NP = r.get("OUT"), r.get("MP"), r.get("NP")
+    subs = [n for n in f.body_nodes() if isinstance(n, ast.Subscript) and isinstance(n.slice, ast.Slice) and unparse(n.value) == OUT]
+    okrc = any(unparse(n) == f"{OUT}[{MP} + len(end_marker) + 1:{NP}]" for n in subs)
     ctx.ob("R4", "the return code is the text between `<marker>:` and the newline", okrc, func=f, node=f.node, instance="framing:returncode-slice")
-    fo = [d.value for d in defs_of(f, "final_output") if d.kind == "assign"]
-    okfo = len(fo) == 1 and unparse(fo[0]) in ("output[:marker_pos].strip()", "output[:marker_pos]")
+    okfo = any(unparse(n) == f"{OUT}[:{MP}]" for n in subs)
     ctx.ob("R4", "the captured output is everything before the marker", okfo, func=f, node=f.node, instance="framing:output-slice")
     rets = [n for n in f.body_nodes() if isinstance(n, ast.Return) and n.value is not None]
-    okr = len(rets) == 1 and unparse(rets[0].value) == "(final_output, returncode)"
-    ctx.ob("R4", "output and integer return code are returned", okr and any(unparse(d.value) == "int(returncode_str)" for d in defs_of(f, "returncode")), func=f, node=f.node,
-           instance="framing:return")
+    okr = False
+    if len(rets) == 1 and isinstance(rets[0].value, ast.Tuple) and len(rets[0].value.elts) == 2:
+        a, b = rets[0].value.elts
+        from ..dataflow import origins as _or
+
+        oa = [unparse(x) for x in _or(f, a)]
+        ob = [unparse(x) for x in _or(f, b)]
+        okr = all(x.startswith(f"{OUT}[:{MP}]") for x in oa) and all(x.startswith("int(") for x in ob) and bool(oa) and bool(ob)
+    ctx.ob("R4", "output and integer return code are returned", okr, func=f, node=f.node, instance="framing:return")
 
 
 def r5(ctx):
@@ -310,7 +361,9 @@ def r5(ctx):
     f = p.func(f"{UT}.run_in_subprocess")
     g = f.cfg
     comm = [n for n in g.nodes.values() if any(isinstance(c.func, ast.Attribute) and c.func.attr == "communicate" for c in n.calls())]
-    waits = [n for n in g.nodes.values() if any(isinstance(c.func, ast.Attribute) and c.func.attr == "wait" and unparse(c.func.value) == "proc" for c in n.calls())]
+    procs = vars_from(f, lambda e: is_call(e, "create_subprocess_exec"))
+    PROC = procs[0] if procs else "proc"
+    waits = [n for n in g.nodes.values() if any(isinstance(c.func, ast.Attribute) and c.func.attr == "wait" and unparse(c.func.value) == PROC for c in n.calls())]
     tests = [n for n in g.nodes.values() if n.kind == "test" and unparse(n.ast) == "capture_output"]
     ctx.require(bool(tests), "C25.R5: capture_output branch not found")
     t = tests[0]
@@ -328,7 +381,8 @@ def r5(ctx):
     ctx.ob("R5", "captured output is drained with communicate() (never wait() before reading the pipe)", ok and esc is None, func=f, node=t.ast,
            instance="subprocess:communicate", message="with capture_output the pipe is not drained while the process runs: outputs larger than the pipe buffer deadlock")
     rets = [n for n in f.body_nodes() if isinstance(n, ast.Return) and n.value is not None and not (isinstance(n.value, ast.Constant) and n.value.value is None)]
-    okr = len(rets) == 1 and isinstance(rets[0].value, ast.Tuple) and unparse(rets[0].value.elts[1]) == "proc.returncode" and "stdout" in unparse(rets[0].value.elts[0])
+    so = [t[0] for t in tuple_vars_from(f, lambda e: "communicate" in unparse(e)) if t and t[0]]
+    okr = len(rets) == 1 and isinstance(rets[0].value, ast.Tuple) and unparse(rets[0].value.elts[1]) == f"{PROC}.returncode" and bool(so) and so[0] in unparse(rets[0].value.elts[0])
     ctx.ob("R5", "stdout and the real return code are returned", okr, func=f, node=f.node, instance="subprocess:return")
     # PIPE iff capture_output
     call = [c for c in f.calls() if isinstance(c.func, ast.Attribute) and c.func.attr == "create_subprocess_exec"]
